@@ -114,15 +114,13 @@ func Run(c Case, extended, enumTypes bool, repo string) map[string]interface{} {
 		ev["genErr"] = "the schema does not decode: " + err.Error()
 		return ev
 	}
-	dirA, dirB := filepath.Join(root, "gen"), filepath.Join(root, "genB")
-	for _, d := range []string{dirA, dirB} {
-		_ = os.MkdirAll(d, 0o755)
-		if err := guard(func() error { return generate(schema, d, extended, enumTypes) }); err != nil {
-			ev["genErr"] = err.Error()
-			return ev
-		}
+	dirA := filepath.Join(root, "gen")
+	_ = os.MkdirAll(dirA, 0o755)
+	if err := guard(func() error { return generate(schema, dirA, extended, enumTypes) }); err != nil {
+		ev["genErr"] = err.Error()
+		return ev
 	}
-	// identical from run to run
+	// identical from run to run: five more runs (an order taken from a Go map repeats by chance now and then)
 	fa, _ := os.ReadDir(dirA)
 	var names []string
 	for _, f := range fa {
@@ -130,21 +128,29 @@ func Run(c Case, extended, enumTypes bool, repo string) map[string]interface{} {
 	}
 	sort.Strings(names)
 	det := true
-	for _, n := range names {
-		a, _ := os.ReadFile(filepath.Join(dirA, n))
-		b, err := os.ReadFile(filepath.Join(dirB, n))
-		if err != nil || !bytes.Equal(a, b) {
-			det = false
-			ev["differs"] = n
+	for run := 0; run < 5 && det; run++ {
+		dirB := filepath.Join(root, fmt.Sprintf("gen%d", run))
+		_ = os.MkdirAll(dirB, 0o755)
+		if err := guard(func() error { return generate(schema, dirB, extended, enumTypes) }); err != nil {
+			ev["genErr"] = err.Error()
+			return ev
 		}
-	}
-	fb, _ := os.ReadDir(dirB)
-	if len(fb) != len(fa) {
-		det = false
-		ev["differs"] = "different sets of files"
+		for _, n := range names {
+			a, _ := os.ReadFile(filepath.Join(dirA, n))
+			b, err := os.ReadFile(filepath.Join(dirB, n))
+			if err != nil || !bytes.Equal(a, b) {
+				det = false
+				ev["differs"] = n
+			}
+		}
+		fb, _ := os.ReadDir(dirB)
+		if len(fb) != len(fa) {
+			det = false
+			ev["differs"] = "different sets of files"
+		}
+		os.RemoveAll(dirB)
 	}
 	ev["deterministic"] = det
-	os.RemoveAll(dirB)
 	// build in a scratch module
 	gomod := "module gentest\n\ngo 1.18\n\nrequire github.com/ovn-org/libovsdb v0.0.0\n\nreplace github.com/ovn-org/libovsdb => " + repo + "\n"
 	_ = os.WriteFile(filepath.Join(root, "go.mod"), []byte(gomod), 0o644)
